@@ -18,6 +18,27 @@ CLAIMED = {
              "outside the nonlinear lemma/clauses; pandas/numpy models listed in evidence.assumptions; do_call is verified "
              "for filters=None and variants=None (filters are C14's, BAF lookup C18's)",
         technique=TECH, design_ref="8 (C01), 3, 5"),
+    "C06": dict(
+        category="other",
+        text="Run-time contracts (bounded stand-in, never counted as proved) on the real GenomicArray.merge/flatten/subtract/"
+             "intersection(trim)/subdivide/resize_ranges with oracles written as set algebra on base pairs: exhaustive over "
+             "every pair of multisets of <= 2 intervals over coordinates 0..4 (thorough: <= 2 x <= 3 over 0..6) decorated with "
+             "second-chromosome rows and a gene column, then random tables to 40 rows / 10^6 coordinates.",
+        note="deductive kernels for this property are listed in the evidence when present; pandas sort_values/groupby.apply "
+             "glue is only reached by the stand-in",
+        technique="contract-based: run-time contracts on exhaustive small scopes and seeded random tables (bounded stand-in); "
+                  "deductive obligations where listed in evidence",
+        design_ref="8 (C06)"),
+    "C07": dict(
+        category="other",
+        text="Run-time contracts (bounded stand-in) on the real by_ranges/intersection/in_range/into_ranges/iter_ranges_of with "
+             "the statement's hit predicate as oracle (outer: overlap by one base; inner: containment; trim: clipped): "
+             "exhaustive over <= 2 rows x <= 2 queries over coordinates 0..4 x 3 modes x keep_empty (thorough: <= 2 x <= 3 over "
+             "0..6), filtered receivers with non-default index, open-ended queries, random nested/duplicated/abutting tables.",
+        note="deductive kernels for this property are listed in the evidence when present",
+        technique="contract-based: run-time contracts on exhaustive small scopes and seeded random tables (bounded stand-in); "
+                  "deductive obligations where listed in evidence",
+        design_ref="8 (C07)"),
     "C19": dict(
         category="other",
         text="Deductive: _width2wing (window half-width always in [1, n-1]) discharged by SMT for all lengths and widths. "
